@@ -72,6 +72,11 @@ class LiteDRAMWishbone2Native(LiteXModule):
             If(ratio <= 1, If(~fsm.ongoing("WRITE"), port.wdata.valid.eq(0))),
             port.wdata.data.eq(wishbone.dat_w),
             port.wdata.we.eq(wishbone.sel),
+            # Write dropped by the master after its command was sent: complete it with no byte enabled.
+            If(fsm.ongoing("WRITE") & (aborted | ~wishbone.cyc),
+                port.wdata.valid.eq(1),
+                port.wdata.we.eq(0),
+            ),
         ]
         fsm.act("WRITE",
             NextValue(aborted, ~wishbone.cyc | aborted),
